@@ -10,10 +10,14 @@ OPT_KEYS = ('center_extrema', 'burst_method', 'burst_kwargs', 'threshold_kwargs'
             'return_samples')
 
 
+class Recording(np.ndarray):
+    """An ndarray subclass, as returned by np.memmap or by containers that attach metadata to a recording."""
+
+
 def as_view(sig, view):
     """A private copy of the samples, optionally laid out differently: 'strided' = a non-contiguous view of a larger buffer
     (one channel of an interleaved recording), 'readonly' = a read-only array (memory-mapped file), 'reversed' = a
-    negative-stride view."""
+    negative-stride view, 'subclass' = an instance of an ndarray subclass (np.memmap, metadata-carrying arrays)."""
     sig = np.array(sig, copy=True)
     if view == 'strided':
         buf = np.empty(2 * len(sig), dtype=sig.dtype)
@@ -24,7 +28,28 @@ def as_view(sig, view):
         return np.array(sig[::-1], copy=True)[::-1]
     if view == 'readonly':
         sig.flags.writeable = False
+    if view == 'subclass':
+        return sig.view(Recording)
     return sig
+
+
+def retyped(x, how):
+    """Numbers inside option containers as NumPy scalars ('numpy', 'mixed') or as Python ints where integral ('ints')."""
+    if isinstance(x, dict):
+        return {k: retyped(v, how) for k, v in x.items()}
+    if isinstance(x, tuple):
+        return tuple(retyped(v, how) for v in x) if how != 'mixed' else [retyped(v, how) for v in x]
+    if isinstance(x, list):
+        return [retyped(v, how) for v in x]
+    if isinstance(x, bool) or x is None or isinstance(x, str):
+        return x
+    if isinstance(x, int):
+        return np.int64(x) if how in ('numpy', 'mixed') else x
+    if isinstance(x, float):
+        if how == 'ints':
+            return int(x) if x.is_integer() else x
+        return np.float64(x)
+    return x
 
 
 def fresh_options(case):
@@ -37,10 +62,22 @@ def call(case, api='func', shared=None):
     from bycycle.features import compute_features
     kw = fresh_options(case) if shared is None else shared
     sig = as_view(case['sig'], case.get('sig_view'))
+    fs_arg, fr_arg = case['fs'], tuple(case['f_range'])
+    how = case.get('arg_types')
+    if how:
+        # the same numbers as other legal Python / NumPy types (values read from a config file, np.arange, a parameter sweep array)
+        kw = retyped(kw, how) if shared is None else kw
+        if how == 'numpy':
+            fs_arg, fr_arg = np.float64(fs_arg), tuple(np.float64(v) for v in fr_arg)      # f_range is documented as a tuple
+        elif how == 'ints':
+            fs_arg = int(fs_arg) if float(fs_arg).is_integer() else fs_arg
+            fr_arg = [int(v) if float(v).is_integer() else v for v in fr_arg]
+        else:
+            fs_arg, fr_arg = np.int64(fs_arg) if float(fs_arg).is_integer() else np.float32(fs_arg).astype(np.float64), list(fr_arg)
     try:
         with quiet():
             if api == 'func':
-                return compute_features(sig, case['fs'], tuple(case['f_range']), **kw), None
+                return compute_features(sig, fs_arg, fr_arg, **kw), None
             from bycycle import Bycycle
             bm = Bycycle(center_extrema=kw.get('center_extrema', 'peak'), burst_method=kw.get('burst_method', 'cycles'),
                          burst_kwargs=kw.get('burst_kwargs'), thresholds=kw.get('threshold_kwargs'),
@@ -64,7 +101,7 @@ def call(case, api='func', shared=None):
                     if how != 'attribute':
                         sig[:] = keep
                     bm.center_extrema = kw.get('center_extrema', 'peak')
-            bm.fit(sig, case['fs'], tuple(case['f_range']))
+            bm.fit(sig, fs_arg, fr_arg)
             return bm.df_features, None
     except Exception as e:          # noqa: BLE001 - the outcome is data for the oracle
         return None, e
